@@ -225,6 +225,41 @@ func Run(r *fw.Run) {
 		}
 		r.Merge(l)
 	}
+	// dense length sweep: an identifier, a number and build metadata of every length 0..enum.DenseMax; each
+	// string alone and compared with its predecessor in length
+	{
+		var mu sync.Mutex
+		dslots := []struct {
+			pre, post string
+			c         byte
+		}{{"v1.2.3-", "", 'a'}, {"v1.2.3-x.", ".y", 'b'}, {"v1.", ".3", '7'}, {"v1.2.3-", "", '9'}, {"v1.2.3+", "", 'm'}, {"v1.2.3-a.", "", '0'}}
+		r.Bounds["dense_length_sweep"] = fmt.Sprintf("%d slots x every fill length 0..%d", len(dslots), enum.DenseMax)
+		fw.Parallel(len(dslots), func(i int) {
+			l := fw.NewLocal()
+			defer r.Merge(l)
+			sl := dslots[i]
+			prev := ""
+			enum.EachLength(sl.c, enum.DenseMax, func(f string) {
+				s := sl.pre + f + sl.post
+				l.States++
+				l.Transitions += 2
+				l.Execs += 2
+				msg, valid := unary(s)
+				if valid {
+					l.Nontrivial++
+				}
+				if msg == "" && prev != "" {
+					msg = pair(prev, s)
+				}
+				if msg != "" {
+					mu.Lock()
+					r.Violation(fmt.Sprintf("dense:%d:%d", i, len(f)), msg, caseT{"pair", q(prev, s)})
+					mu.Unlock()
+				}
+				prev = s
+			})
+		})
+	}
 	r.Sample(map[string]any{"kind": "unary", "examples_valid": pool[:min(8, len(pool))]})
 
 	// structured members, unary too
